@@ -1,5 +1,5 @@
 #!/bin/sh
-# prop.sh <keys|arena|lockfree|rodeo|threaded|views|clone|iters|findings|all> <repo> <workdir>
+# prop.sh <keys|arena|lockfree|rodeo|threaded|views|clone|iters|serde|findings|all> <repo> <workdir>
 #   Regenerate the Gallina definitions from the Rust source text of <repo> and check the hand-written theorems
 #   ("generated = model, for all inputs" and "every collected obligation holds") against them, in <workdir>
 #   (created; the hand-written files are COPIED there; nothing is written next to this script or into the Coq dir).
@@ -14,9 +14,9 @@
 #   ArenaFindings.v on top of the arena chain.
 set -u
 HERE=$(cd "$(dirname "$0")" && pwd)
-WHAT=${1:?usage: prop.sh <keys|arena|lockfree|rodeo|threaded|views|clone|iters|findings|all> <repo> <workdir>}
-REPO=${2:?usage: prop.sh <keys|arena|lockfree|rodeo|threaded|views|clone|iters|findings|all> <repo> <workdir>}
-WORK=${3:?usage: prop.sh <keys|arena|lockfree|rodeo|threaded|views|clone|iters|findings|all> <repo> <workdir>}
+WHAT=${1:?usage: prop.sh <keys|arena|lockfree|rodeo|threaded|views|clone|iters|serde|findings|all> <repo> <workdir>}
+REPO=${2:?usage: prop.sh <keys|arena|lockfree|rodeo|threaded|views|clone|iters|serde|findings|all> <repo> <workdir>}
+WORK=${3:?usage: prop.sh <keys|arena|lockfree|rodeo|threaded|views|clone|iters|serde|findings|all> <repo> <workdir>}
 VERIF_COQ_DIR=${VERIF_COQ_DIR:-/verif/coq}; export VERIF_COQ_DIR
 [ -f "$VERIF_COQ_DIR/Arena.vo" ] || { echo "prop: no compiled model in $VERIF_COQ_DIR"; exit 2; }
 
@@ -40,6 +40,8 @@ chain() {  # chain <name> <workdir>
     clone)    HAND="GenPrelude GenIR GenRequest GenTactics GenIRRodeo GenTacticsRodeo GenIRClone CloneGenProofs"
               PRE="GenPrelude GenIR GenRequest GenTactics GenIRRodeo GenTacticsRodeo GenIRClone CloneGen"; PROOFS="CloneGenProofs" ;;
     iters)    HAND="GenIRIters ItersGenProofs"; PRE="GenIRIters ItersGen"; PROOFS="ItersGenProofs" ;;
+    serde)    HAND="GenPrelude GenIR GenRequest GenTactics GenIRRodeo GenTacticsRodeo GenIRSerde SerdeGenProofs"
+              PRE="GenPrelude GenIR GenRequest GenTactics GenIRRodeo GenTacticsRodeo GenIRSerde SerdeGen"; PROOFS="SerdeGenProofs" ;;
     *) echo "prop: unknown chain $name"; return 2 ;;
   esac
   mkdir -p "$W" || return 2
@@ -76,20 +78,20 @@ worst() {  # combine exit codes: 2 > 1 > 3 > 0
 case $WHAT in
   all)
     mkdir -p "$WORK" || exit 2
-    for n in keys arena lockfree rodeo threaded views clone iters; do
+    for n in keys arena lockfree rodeo threaded views clone iters serde; do
       ( chain $n "$WORK/$n" > "$WORK/$n.out" 2>&1; echo $? > "$WORK/$n.rc" ) &
     done
     wait
     rc=0
-    for n in keys arena lockfree rodeo threaded views clone iters; do
+    for n in keys arena lockfree rodeo threaded views clone iters serde; do
       cat "$WORK/$n.out"
       r=$(cat "$WORK/$n.rc" 2>/dev/null || echo 2)
       echo "prop: $n: exit $r"
       rc=$(worst $rc $r)
     done ;;
-  keys|arena|lockfree|rodeo|threaded|views|clone|iters|findings)
+  keys|arena|lockfree|rodeo|threaded|views|clone|iters|serde|findings)
     chain $WHAT "$WORK"; rc=$? ;;
-  *) echo "usage: prop.sh <keys|arena|lockfree|rodeo|threaded|views|clone|iters|findings|all> <repo> <workdir>"; exit 2 ;;
+  *) echo "usage: prop.sh <keys|arena|lockfree|rodeo|threaded|views|clone|iters|serde|findings|all> <repo> <workdir>"; exit 2 ;;
 esac
 case $rc in 0) echo "prop: $WHAT: OK" ;; 1) echo "prop: $WHAT: FAIL" ;; 3) echo "prop: $WHAT: LOST" ;; *) echo "prop: $WHAT: ERROR" ;; esac
 exit $rc
